@@ -1,5 +1,6 @@
 """Shared helpers: seeded sub-streams, eval under the simulated world, greedy minimiser."""
 import hashlib
+import sys
 import json
 import math
 import random
@@ -50,9 +51,24 @@ def jump_mono(track, delta, why):
     W.log("fault_fired", why, round(delta, 6))
 
 
+HOST_STACK_HEADROOM = 950  # Python frames available to the engine: default limit 1000 minus a shallow embedder
+
+
+def pin_host_stack():
+    """The engine gets the same number of host stack frames whatever the depth of the harness
+    (pool worker, replay, self-test), so that host-stack exhaustion is reproducible."""
+    f = sys._getframe()
+    n = 0
+    while f is not None:
+        n += 1
+        f = f.f_back
+    sys.setrecursionlimit(n + HOST_STACK_HEADROOM)
+
+
 def run_eval(ctx, src, cap_extra, track=None):
     """Evaluate src on ctx under a work cap. Returns a dict describing the outcome."""
     S = W.S
+    pin_host_stack()
     start_work = S.work
     start_now = W.now()
     W.set_cap(start_work + cap_extra)
